@@ -19,14 +19,14 @@ KEY_RESIZE = "bitv:resize-frees-interior-pointer"
 
 MANIFEST_PART = {
     "what": "bitv.c: bitvClassCreate, bitvTest/Set/Clear, bitvSetAll/ClearAll/Copy/Not/And/Or/Minus, bitvEqual (mask "
-            "of the last word), bitvMax/Count/CountTo/Unique1IndexInRange, bitvFromInt/ToInt, bitvResize (values) as "
+            "of the last word), bitvMax/Count/CountTo/Unique1IndexInRange, bitvFromInt/ToInt, bitvToString/bitvPrint (text and count), bitvResize (values) as "
             "Gallina functions on lists of 64-bit words with explicit wrap-around; theorems for every length and "
             "arbitrary content of the unused bits: set algebra against list bool, equality <-> same set, count, max, "
             "unique-1, int round trip, resize keeps old elements, word range preserved. Tie: random + boundary-aimed "
             "histories (lengths 0,1,63,64,65,127,128,129,...; indices at word edges; garbage in the unused bits) "
             "through harness/bitv/h.c vs extracted model on raw words; python set oracle.",
-    "not_modelled": "storage (bitvNew content, bitvFree, bitvManyNew's single block: correspondence only), the text "
-                    "printers bitvPrint/bitvToString, `int` index overflow; bitvResize's release of the old vector",
+    "not_modelled": "storage (bitvNew content, bitvFree, bitvManyNew's single block: correspondence only), "
+                    "bitvPrint/bitvToString with a NULL class and bitvPrintDb, `int` index overflow; bitvResize's release of the old vector",
 }
 
 _built = {}
@@ -159,6 +159,9 @@ class Ref:
             exp = str(inr[0]) if len(inr) == 1 else "-1"
         elif op == "toint":
             exp = str(sum(1 << i for i in R[a[0]]))
+        elif op == "tostring":
+            t = "[" + "".join(("1" if i in R[a[0]] else "0") + (" " if i % 5 == 4 else "") for i in range(self.n)) + "]"
+            exp = "%s|%s|%d" % (t, t, len(t))
         elif op == "fromint":
             R[a[0]] = {i for i in range(self.n) if (a[1] >> i) & 1}
             exp = self.bitstr(R[a[0]])
@@ -192,7 +195,7 @@ def split_histories(lines):
 
 REG_ARGS = {"setall": (1, 0), "clearall": (1, 0), "set": (1, 0), "clear": (1, 0), "copy": (1, 1), "not": (1, 1),
             "and": (1, 2), "or": (1, 2), "minus": (1, 2), "test": (0, 1), "equal": (0, 2), "max": (0, 1),
-            "count": (0, 1), "countto": (0, 1), "unique": (0, 1), "toint": (0, 1), "bits": (0, 1), "resize": (0, 1)}
+            "count": (0, 1), "countto": (0, 1), "unique": (0, 1), "toint": (0, 1), "tostring": (0, 1), "bits": (0, 1), "resize": (0, 1)}
 
 
 def valid(lines):
@@ -334,12 +337,15 @@ def history(rnd, kind):
         elif w < 0.95:
             lo = rnd.randint(0, n)
             lines.append("unique %d %d %d" % (r, lo, rnd.randint(lo, n)))
+        elif w < 0.975:
+            lines.append("tostring %d" % r)
         else:
             lines.append("bits %d" % r)
     if kind == "int":
         v = rnd.choice((0, 1, -1, -2, 5, 2 ** 31 - 1, -2 ** 31, rnd.randint(-2 ** 31, 2 ** 31 - 1)))
         lines.append("fromint 0 %d" % v)
         lines.append("toint 0")
+        lines.append("tostring 0")
         lines.append("count 0")
         lines.append("manynew %d" % rnd.randint(0, 3))
     if kind == "resize":
